@@ -54,19 +54,24 @@ func isSentinel(err error) bool {
 // famFallback (C08): query texts over the whole vocabulary; fallback on and off; creation
 // outcome, path, counters and executed result against the reference engine.
 func famFallback(sc *scn.Scenario, em func(vt.Ev)) {
-	fallbackOn(sc, em, false)
+	fallbackOn(sc, em, "")
 	// the same for the distributed engine over two remote engines that do not fall back themselves
 	// (they reject what they cannot evaluate when the remote query is created): one more scenario
 	d := *sc
 	d.ID = sc.ID + "-dist"
-	fallbackOn(&d, em, true)
+	fallbackOn(&d, em, "dist")
+	// ... and over two remote engines that answer what they cannot evaluate through their own fallback
+	f := *sc
+	f.ID = sc.ID + "-distfb"
+	fallbackOn(&f, em, "distfb")
 }
 
-func fallbackOn(sc *scn.Scenario, em func(vt.Ev), distributed bool) {
+func fallbackOn(sc *scn.Scenario, em func(vt.Ev), kind string) {
+	distributed := kind != ""
 	q := sc.Query()
 	runtime.GOMAXPROCS(sc.Procs())
 	em(vt.Ev{"ev": "sc", "id": sc.ID, "fam": sc.Fam, "q": q, "start": sc.Start, "end": sc.End, "step": sc.Step, "lb": sc.LB, "qlb": sc.QLB, "tickms": sc.TickMs, "data": []any{},
-		"cfg": map[string]any{"distributed": distributed}})
+		"cfg": map[string]any{"engine": kind}})
 	ref := promql.NewEngine(run.PromOpts(sc.Dur(sc.LB)))
 	rq, rerr := run.Create(ref, run.Store(sc), sc)
 	em(vt.Ev{"ev": "ref", "ok": rerr == nil})
@@ -90,7 +95,7 @@ func fallbackOn(sc *scn.Scenario, em func(vt.Ev), distributed bool) {
 						part = append(part, s)
 					}
 				}
-				remotes = append(remotes, engine.NewLocalEngine(run.EngineOpts(sc, "default", true, nil), vstore.New(part)))
+				remotes = append(remotes, engine.NewLocalEngine(run.EngineOpts(sc, "default", kind == "dist", nil), vstore.New(part)))
 			}
 			eng = engine.NewDistributedEngine(run.EngineOpts(sc, "default", !fb, reg), api.NewStaticEndpoints(remotes))
 		}
